@@ -75,6 +75,7 @@ func writeEvidence(prop, tier string, seed uint64, a *agg, bt *builtTree, lcs []
 	}
 	sort.Strings(never)
 	cov := map[string]any{
+		"source_rewrite_level": map[string]any{"level": bt.level, "meaning": "2 = type-aware rewrite (cooperative blocking, clock, finalizers, inner points), 1 = inner points only, 0 = only sync.Pool re-pointed (the rewriter steps down if the rewritten tree does not build)"},
 		"library_statements": map[string]any{
 			"inner_yield_points_inserted":           len(bt.rw.PointNames) - 1,
 			"reached_by_simulated_tasks":            len(a.executed),
